@@ -854,9 +854,11 @@ impl Values<bool> for Intervals<bool> {
 
 impl Values<i64> for Intervals<i64> {
     fn values_len(&self) -> Option<usize> {
-        let min = (*self.min()?).clamp(-(self.capacity as i64), self.capacity as i64);
-        let max = (*self.max()?).clamp(-(self.capacity as i64), self.capacity as i64);
-        Some((max - min) as usize)
+        // The width of the hull, saturated: clamping both ends to [-capacity, capacity] made every hull lying
+        // beyond the capacity look empty (or narrow), and `into_values` then enumerated it point by point.
+        let min = *self.min()?;
+        let max = *self.max()?;
+        Some(usize::try_from(max.saturating_sub(min)).unwrap_or(usize::MAX))
     }
     fn max_value_len(&self) -> usize {
         self.capacity
